@@ -158,7 +158,9 @@ func (root *Root) resolve(
 	case *Interface:
 		// Resolve as the object type the Go type of obj is bound to if there
 		// is one so __typename and fragments see the concrete type.
-		if ot := root.implementer(obj, tt); ot != nil {
+		// Fields the interface does not define are reported against the
+		// interface as before.
+		if ot := root.implementer(obj, tt); ot != nil && undefinedIn(field.Sels, tt, depth) == nil {
 			t = ot
 		}
 		result, ea = root.resolveFieldSels(obj, vars, field, t, depth-1)
@@ -764,9 +766,53 @@ func (root *Root) resolveInline(
 	depth int) (ea []error) {
 
 	if fragApplies(sel.Condition, t) {
+		if sel.Condition != nil && sel.Condition != t {
+			if f := undefinedIn(sel.Sels, sel.Condition, depth); f != nil {
+				return []error{resWarnp(f, "%s is not a field in %s", f.Name, sel.Condition.Name())}
+			}
+		}
 		ea = root.resolveSels(obj, vars, sel.Sels, t, result, depth)
 	}
 	return
+}
+
+// undefinedIn returns the first field selected on the abstract type at,
+// directly or through fragments that do not narrow the type, that at does
+// not define. An interface defines its fields, a union none. Meta fields are
+// always defined.
+func undefinedIn(sels []Selection, at Type, depth int) *Field {
+	if depth <= 0 {
+		return nil
+	}
+	for _, sel := range sels {
+		switch ts := sel.(type) {
+		case *Field:
+			if strings.HasPrefix(ts.Name, "__") {
+				continue
+			}
+			switch tt := at.(type) {
+			case *Interface:
+				if tt.GetField(ts.Name) == nil {
+					return ts
+				}
+			case *Union:
+				return ts
+			}
+		case *Inline:
+			if ts.Condition == nil || ts.Condition == at {
+				if f := undefinedIn(ts.Sels, at, depth-1); f != nil {
+					return f
+				}
+			}
+		case *FragRef:
+			if ts.Fragment != nil && (ts.Fragment.Condition == nil || ts.Fragment.Condition == at) {
+				if f := undefinedIn(ts.Fragment.Sels, at, depth-1); f != nil {
+					return f
+				}
+			}
+		}
+	}
+	return nil
 }
 
 // fragApplies returns true if a fragment with type condition cond applies to
@@ -808,6 +854,11 @@ func (root *Root) resolveFragRef(
 		return []error{resWarn(sel.Line(), sel.Column(), "fragment %s nested too deeply", sel.Fragment.Name)}
 	}
 	if fragApplies(sel.Fragment.Condition, t) {
+		if cond := sel.Fragment.Condition; cond != nil && cond != t {
+			if f := undefinedIn(sel.Fragment.Sels, cond, depth); f != nil {
+				return []error{resWarnp(f, "%s is not a field in %s", f.Name, cond.Name())}
+			}
+		}
 		ea = root.resolveSels(obj, vars, sel.Fragment.Sels, t, result, depth-1)
 		if 0 < len(ea) {
 			Errors(ea).in(fmt.Sprintf("fragment at %d:%d", sel.Line(), sel.Column()))
